@@ -16,7 +16,7 @@ _ws = re.compile(r'(?:\s+|#[^\n]*|--[ \t][^\n]*|--\n|/\*.*?\*/)+', re.S)
 _num = re.compile(r'(?:\d+\.\d*|\.\d+|\d+)(?:[eE][+-]?\d+)?')
 _ident = re.compile(r'[A-Za-z_][A-Za-z0-9_$]*')
 _ops = ['<=>', ':=', '<=', '>=', '<>', '!=', '||', '&&', '<<', '>>', '->>', '->',
-        '(', ')', ',', ';', '=', '<', '>', '+', '-', '*', '/', '%', '.', '!', '&', '|', '^', '~']
+        '(', ')', ',', ';', ':', '=', '<', '>', '+', '-', '*', '/', '%', '.', '!', '&', '|', '^', '~']
 _esc = {'n': '\n', 't': '\t', 'r': '\r', '0': '\0', 'b': '\b', 'Z': '\x1a', '\\': '\\', "'": "'", '"': '"',
         '%': '\\%', '_': '\\_'}
 
